@@ -77,6 +77,7 @@ theorem C17_shutdown_sequential (w : World) (hf : w.flag = false) (hp : w.proxyA
         | addRoute r => simp only [World.op]; split <;> simp [step, hx]
         | send r tag => simp only [World.op]; split <;> simp [step_stopped, hx]
         | dropSender r => simp only [World.op]; split <;> simp [step_stopped, hx]
+        | badFwd r => simp only [World.op]; split <;> simp [step_stopped, hx]
         | shutdown => simp only [World.op]; split <;> simp [step, hx]
         | dropProxy => simp only [World.op]; split <;> simp [step_stopped, hx]
       have := ih _ hstep.2.2
@@ -89,6 +90,9 @@ theorem C17_shutdown_sequential (w : World) (hf : w.flag = false) (hp : w.proxyA
 example : (run legacy ⟨[(1, 7)], 2, [.shutdown 0], false, []⟩ [.wake, .msg 1 42]).log = [.ack 0, .invoke 7 42] := by decide
 /-- D7: dropping the proxy panics the legacy router thread -/
 example : (run legacy ⟨[(1, 7)], 2, [], false, []⟩ [.wakeClosed]).log = [.panic] := by decide
+/-- D19: a message that does not decode, on a crossbeam-forwarding route, panics the legacy router thread (and every other route with it) -/
+example : (run legacy ⟨[(1, 7), (2, 8)], 3, [], false, []⟩ [.badFwd 1, .msg 2 5]).log = [.panic, .invoke 8 5] ∧
+    (run fixed ⟨[(1, 7), (2, 8)], 3, [], false, []⟩ [.badFwd 1, .msg 2 5]).log = [.invoke 8 5] := by decide
 /-- repaired, same inputs -/
 example : (run fixed ⟨[(1, 7)], 2, [.shutdown 0], false, []⟩ [.wake, .msg 1 42]).log = [.dropH 7, .ack 0, .stop] := by decide
 example : (run fixed ⟨[(1, 7)], 2, [], false, []⟩ [.wakeClosed]).log = [.dropH 7, .stop] := by decide
